@@ -326,7 +326,7 @@ Proof.
       { destruct W1 as [W1|[_ [W1 _]]]; [exact W1|congruence]. }
       destruct Wa as [Wa Ws].
       rewrite amw_ids_app, (amw_ids_nil _ E1), wc_app, Wa, K2. cbn [app].
-      repeat split; try assumption; congruence.
+      destruct K7 as [K7a K7b]. repeat split; try assumption; congruence.
 Qed.
 
 (* ---------- the state while the chain is being consulted ---------- *)
